@@ -417,17 +417,17 @@ inline Angle<NumericType> Vector<NumericType>::Angle(
 template <typename NumericType>
 inline Angle<NumericType>::Angle(
     const Vector<NumericType>& vector, const Direction<NumericType>& direction)
-  : Angle(std::acos(vector.Dot(direction) / vector.Magnitude())) {}
+  : Angle(Internal::ArcCosine(vector.Dot(direction) / vector.Magnitude())) {}
 
 template <typename NumericType>
 inline Angle<NumericType>::Angle(
     const Direction<NumericType>& direction, const Vector<NumericType>& vector)
-  : Angle(std::acos(direction.Dot(vector) / vector.Magnitude())) {}
+  : Angle(Internal::ArcCosine(direction.Dot(vector) / vector.Magnitude())) {}
 
 template <typename NumericType>
 inline Angle<NumericType>::Angle(
     const Direction<NumericType>& direction1, const Direction<NumericType>& direction2)
-  : Angle(std::acos(direction1.Dot(direction2))) {}
+  : Angle(Internal::ArcCosine(direction1.Dot(direction2))) {}
 
 template <typename NumericType>
 inline constexpr PlanarDirection<NumericType>::PlanarDirection(
